@@ -198,10 +198,18 @@ func (ps *ProcessSet) handleThrow(ctx context.Context, msg throwMessage) {
 		}
 
 		traces := process.Tracer().Subscribe()
+		pctx, stop := context.WithCancel(ctx)
 		ps.wg.Add(1)
-		go ps.tracerProcess(ctx, process, traces, &ps.wg)
+		go func() {
+			defer stop()
+			ps.tracerProcess(pctx, process, traces, &ps.wg)
+		}()
 		err = process.StartWith(ctx, startFlowNode)
 		if err != nil {
+			// the instance was never started (the message flow targets a node
+			// it cannot be instantiated at): nothing would ever end its monitor
+			// and the set would never complete
+			stop()
 			ps.tracer.Send(ErrorTrace{Error: err})
 			return
 		}
